@@ -6,6 +6,8 @@ import (
 	"fmt"
 	"os"
 	"strconv"
+
+	"verif/harness/world"
 )
 
 func usage() {
@@ -32,17 +34,23 @@ func main() {
 	if len(os.Args) < 2 {
 		usage()
 	}
+	exit := func(code int, cleanup func()) {
+		cleanup()
+		os.Exit(code)
+	}
 	switch os.Args[1] {
 	case "check":
 		if len(os.Args) < 4 {
 			usage()
 		}
-		os.Exit(runCheck(os.Args[2], os.Args[3], seedFromEnv()))
+		cleanup := world.PrepareCache()
+		exit(runCheck(os.Args[2], os.Args[3], seedFromEnv()), cleanup)
 	case "replay":
 		if len(os.Args) < 3 {
 			usage()
 		}
-		os.Exit(runReplay(os.Args[2]))
+		cleanup := world.PrepareCache()
+		exit(runReplay(os.Args[2]), cleanup)
 	case "selftest":
 		if len(os.Args) < 3 {
 			usage()
@@ -51,7 +59,8 @@ func main() {
 		if len(os.Args) > 3 {
 			prop = os.Args[3]
 		}
-		os.Exit(runSelftest(os.Args[2], prop, seedFromEnv()))
+		cleanup := world.PrepareCache()
+		exit(runSelftest(os.Args[2], prop, seedFromEnv()), cleanup)
 	case "worlds":
 		if len(os.Args) < 4 {
 			usage()
